@@ -168,8 +168,9 @@ class Interp(container.ContainerInterp):
                           f"first difference at byte {k} ({where}); state {self.state_class()}, N={self.N}, {len(self.model)} live")
         # the open object must still describe the file
         parsed = reftdf.parse_container(after)
-        mem = [(e.type.value, int(e.format), int(e.offset), int(e.size), e.comment) for e in self.tdf.entries]
-        disk = [(e["type"], e["format"], e["offset"], e["size"], e["comment"]) for e in parsed["entries"]]
+        mem = [(e.type.value, int(e.format), int(e.offset), int(e.size), e.comment, container.sec_of(e.creation_date), container.sec_of(e.last_modification_date))
+               for e in self.tdf.entries]
+        disk = [(e["type"], e["format"], e["offset"], e["size"], e["comment"], e["cdate"], e["mdate"]) for e in parsed["entries"]]
         if mem != disk:
             i = next((j for j in range(min(len(mem), len(disk))) if mem[j] != disk[j]), min(len(mem), len(disk)))
             self.ctx.fail(f"{cause}/{path}/memory-table-changed",
